@@ -17,6 +17,8 @@ require (
 	github.com/dgraph-io/ristretto v0.0.2 // indirect
 	github.com/dustin/go-humanize v1.0.0 // indirect
 	github.com/golang/protobuf v1.4.0 // indirect
+	github.com/jirenius/keylock v1.0.0 // indirect
+	github.com/jirenius/taskqueue v1.1.0 // indirect
 	github.com/jirenius/timerqueue v1.0.0 // indirect
 	github.com/nats-io/jwt v0.3.2 // indirect
 	github.com/nats-io/nkeys v0.1.4 // indirect
